@@ -21,7 +21,7 @@ package main
 //	updateAssignCallsFound         : there is at least one such call
 //
 // The facts select / parametrise the Lean transcriptions (Model/CondValue.lean `mapArm`, Model/UpdateKeys.lean
-// `convertToAssignments`); whether the code behaves like the selected transcription is judged by the correspondence suites
+// `updConvertToAssignments`); whether the code behaves like the selected transcription is judged by the correspondence suites
 // val.dispatch and rekey.tie on every run.
 
 import (
